@@ -222,12 +222,55 @@ def shifted_frames(inp):
     return out
 
 
+def uses_object_path(inp):
+    """this movie is linked by a Linker object driven directly (see `_reused_linker`)"""
+    return bool(inp.get("linker_reuse")) and inp.get("entry", "link_iter") == "link_iter"
+
+
+# class attributes (MAX_SUB_NET_SIZE, MAX_SUB_NET_SIZE_ADAPTIVE) that the object path sets on a
+# SUBCLASS of Linker instead of on Linker itself - how a user configures one linker without touching
+# the others; see `size_limits`
+_SUBCLASS_ATTRS = {}
+
+
+class size_limits:
+    """context manager: run with the given size limits configured - on the Linker class, or (object
+    path, every other movie) on the subclass the object path instantiates, Linker left at its defaults"""
+
+    def __init__(self, inp, **attrs):
+        self.attrs = attrs
+        self.on_subclass = uses_object_path(inp) and (len(inp["frames"]) + inp.get("memory", 0)) % 2 == 0
+
+    def __enter__(self):
+        import trackpy.linking.linking as L
+        if self.on_subclass:
+            _SUBCLASS_ATTRS.update(self.attrs)
+        else:
+            self.old = {k: getattr(L.Linker, k) for k in self.attrs}
+            for k, v in self.attrs.items():
+                setattr(L.Linker, k, v)
+        return self
+
+    def __exit__(self, *exc):
+        import trackpy.linking.linking as L
+        if self.on_subclass:
+            for k in self.attrs:
+                _SUBCLASS_ATTRS.pop(k, None)
+        else:
+            for k, v in self.old.items():
+                setattr(L.Linker, k, v)
+        return False
+
+
 def _reused_linker(pairs, sr, kw):
     """what link_iter does (linking.py: `Linker(search_range, **kwargs)`, `init_level`, `next_level`,
     `particle_ids`), on a Linker that has been through the whole movie once already"""
     from trackpy.linking.linking import Linker
     from trackpy.linking.utils import SubnetOversizeException
-    linker = Linker(sr, **kw)
+    cls = Linker
+    if _SUBCLASS_ATTRS:
+        cls = type("UserLinker", (Linker,), dict(_SUBCLASS_ATTRS))
+    linker = cls(sr, **kw)
     try:
         for k, (t, a) in enumerate(pairs):
             if k == 0:
@@ -264,7 +307,7 @@ def run_impl(inp, extra_kwargs=None, predictor=None):
         # a third of the movies come out of a generator that RE-USES one buffer for every frame (the
         # array handed over for frame k is overwritten when frame k+1 is produced): what the linker
         # needs from a level it has to keep itself
-        reuse_buf = (len(frames) + dim + inp.get("memory", 0)) % 3 == 0
+        reuse_buf = (len(frames) + dim + inp.get("memory", 0)) % 3 == 0 and not uses_object_path(inp)
         nmax = max([len(p) for p in frames] + [1])
 
         def it():
@@ -294,7 +337,7 @@ def run_impl(inp, extra_kwargs=None, predictor=None):
         # ... or by a Linker OBJECT that has linked another sequence before (the class is public;
         # `init_level` starts a new sequence): what the first sequence left behind — remembered
         # features, ids — must not reach the second one.  The first sequence is the movie itself.
-        if inp.get("linker_reuse") and not reuse_buf:
+        if uses_object_path(inp):
             gen = _reused_linker(list(it()), sr, kw)
         # two kinds of consumer: one reads each yielded list at once, the other keeps the yielded
         # objects and reads them when the generator is exhausted (`list(tp.link_iter(...))`): what was
@@ -557,14 +600,12 @@ def run_movie_case(ctx, inp, want=("valid", "optimal"), prop="C01", maxsize=None
     if maxsize is None and inp.get("maxsize"):
         # the documented knob: Linker.MAX_SUB_NET_SIZE set by the user ("… or increase
         # Linker.MAX_SUB_NET_SIZE"); the raise / no-raise boundary must follow it
-        import trackpy.linking.linking as _L
-        old = _L.Linker.MAX_SUB_NET_SIZE
-        _L.Linker.MAX_SUB_NET_SIZE = maxsize = int(inp["maxsize"])
+        maxsize = int(inp["maxsize"])
         res.stat("max_sub_net_size_set_to_%d" % maxsize)
-        try:
+        with size_limits(inp, MAX_SUB_NET_SIZE=maxsize) as lim:
+            if lim.on_subclass:
+                res.stat("size_limit_set_on_a_subclass")
             levels = run_impl(inp)
-        finally:
-            _L.Linker.MAX_SUB_NET_SIZE = old
     else:
         if maxsize is None:
             maxsize = code_limits()[0]
